@@ -16,7 +16,7 @@ int lc_fputc(int ch, FILE *stream)
     if (FPC.calls == 0) { FPC.ch = ch; FPC.stream = stream; FPC.all_same = 1; }
     else if (FPC.ch != ch || FPC.stream != stream) FPC.all_same = 0;
     FPC.calls++;
-    return ch;
+    return (int)(unsigned char)ch;      /* C11 7.21.7.3: fputc returns the character written, converted to unsigned char and then int */
 }
 struct { size_t calls; struct ST_string_stream *self; const char *data; size_t size; } SSA;     /* string_stream::append */
 struct { size_t calls; struct ST_string_stream *self; char ch; size_t count; } SSC;             /* string_stream::append_char */
